@@ -249,6 +249,9 @@ class ConveyorOracle:
                     self.viol("C12", "exact_travel", "undisturbed-journey-took-other-than-belt-length/speed" +
                               (":ragged-geometry" if self.ragged else ""),
                               {"item": ir.iid, "put": p, "ready": r, "travel": r - p, "ragged_geometry": self.ragged})
+            elif not self.acc and self.ragged:
+                # belt length not a multiple of the item length: the travel time itself is off (KF-ragged-geometry, C12)
+                mon.counters["c13_na2_skipped_ragged_geometry"] += 1
             elif not self.acc:
                 # ---- NA2: moved time between the two readings of 'stalled'
                 mon.counters["c13_na2_checked"] += 1
